@@ -85,7 +85,7 @@ def wktClass (line : String) : String :=
       | .ok _ => "accepted"
       | .error _ =>
         if !dimOK { cfg with old3D := false } g.g then "mixed-dimension-collection"
-        else if cfg.old3D then "old3d-untagged-empty-member"
+        else if cfg.old3D then "old3d-nested-tagged-member"
         else "other"
     | _ => "bad-gtree"
   | none => "bad-line"
